@@ -1,3 +1,12 @@
 import SteelVerif.C05.Props
 open SteelVerif.C05
+#print axioms step_inv
+#print axioms rc_safe
+#print axioms no_access_after_free
+#print axioms unique_access_sound
+#print axioms freed_only_without_references
+#print axioms destroyed_at_most_once
+#print axioms alive_while_referenced
+#print axioms total_is_sum
 #print axioms example_history_frees_once
+#print axioms example_unique_granted
